@@ -176,12 +176,12 @@ def run_special(kind, start, n, dt):
     """begin-settings: a session on scenario alt (registered with k = 3) begun with settings that name only ANOTHER constant (r): every way of
        obtaining the results - REST session, REST /run on a second server, Python session - computes with k = 3 and the new r;
     long: a session of n >= 60 steps (an equation looks 12 time units back) with constants changed at steps 5 and 30, through REST run-step and
-       through the Python session; with n > 200 the Python session's scenario cache is reset in mid-session (after step n - 5)."""
+       through the Python session."""
     from fractions import Fraction
     stop = float(Fraction(str(start)) + n * Fraction(str(dt)))
     viol = []
     label = "%s start=%r dt=%r n=%d" % (kind, start, dt, n)
-    eqs_l = EQS + ["dl"]
+    eqs_l = EQS + ["dl", "acc"]
     if kind == "begin-settings":
         spec = srv.ref_spec(start, stop, dt, k=3.0, r=0.2)
         ref, times = refsd.RefModel(spec), refsd.grid(start, stop, dt)
@@ -262,8 +262,6 @@ def run_special(kind, start, n, dt):
         r = client.post("/%s/run-step" % iid, json=body) if body else client.post("/%s/run-step" % iid)
         st = srv.step_values(srv.unpickle_json(srv.body(r)), SM, "base")
         rr = b.run_step(settings=body["settings"]) if body else b.run_step()
-        if n > 200 and i == n - 5:
-            b.reset_scenario_cache(scenario_manager=SM, scenario="base")
         for eq in eqs_l:
             w = ref.value(eq, t)
             pv = list(rr[SM]["base"][eq].values())[0] if isinstance(rr, dict) and SM in rr else None
@@ -462,7 +460,7 @@ def run(ctx):
     ctx.finish({
         "evaluations": len(js), "distinct_nontrivial": len(js),
         "rule": "run specs start in {0,1} x dt in {1,.5,.25,.1} plus (start,dt) in {(-2,1), (-1,.5), (-3,1)} x N <= %d steps x all compositions of the N+1 grid points into run-step / run-steps(k) / "
-                "stream-steps(rest) x per-call settings over {no body, {}, k:=5, k:=0.5, k:=4 together with new lookup points, k back to the registered value}; a session begun with settings naming only another constant; sessions of 70 and 240 steps (an equation looking 12 units back; cache reset in mid-session); plus per run spec the batch run in df/dict/json, REST /run and the "
+                "stream-steps(rest) x per-call settings over {no body, {}, k:=5, k:=0.5, k:=4 together with new lookup points, k back to the registered value}; a session begun with settings naming only another constant; sessions of 70 and 240 steps (an equation looking 12 units back, an accumulator that forgets nothing); plus per run spec the batch run in df/dict/json, REST /run and the "
                 "Python session in nested/flat steps and all session_results modes" % (3 if ctx.tier == "quick" else 5),
         "samples": [list(map(str, j)) for j in js[:3]],
     }, assumptions=["stream-steps is the last call of a composition", "one scenario per session (two scenarios: C16)"])
